@@ -7,6 +7,7 @@ and prints one JSON document.
 from __future__ import annotations
 
 import itertools
+from typing import Any
 import json
 import os
 import sys
@@ -149,6 +150,67 @@ def main() -> int:
                         viol("secret_differs", {**w, "kind": "values"}, f"{desc}: restored secret keys {sorted(e.secret) if isinstance(e.secret, dict) else e.secret}")
                     if e.generation != 3:
                         viol("generation_differs", {**w, "expected": 3}, f"{desc}: generation {e.generation}")
+        # the random bytes of the encrypted wire format ([salt][nonce][ciphertext+tag]) are an environment answer: every value of
+        # the blob's FIRST byte (salt[0]) is forced, and a deterministic nonce counter is run until every value of the blob's
+        # LAST byte (the end of the GCM tag) has occurred - whatever bytes sit at either end, the secret must come back
+        class _OwnedOS:
+            def __init__(self, real: Any) -> None:
+                self._real, self.salt0, self.counter = real, 0, 0
+
+            def urandom(self, n: int) -> bytes:
+                if n == encryption.SALT_LENGTH:
+                    return bytes([self.salt0]) + b"\x5a" * (n - 1)
+                return self.counter.to_bytes(n, "big")
+
+            def __getattr__(self, k: str) -> Any:
+                return getattr(self._real, k)
+
+        real_os = encryption.os
+        owned = _OwnedOS(real_os)
+        encryption.os = owned  # type: ignore[assignment]
+        try:
+            last_seen: set[int] = set()
+            sec = {"app": {"K": "v", "MULTI": "line1\nline2\n"}}
+
+            def one(desc: str, w: dict) -> None:
+                out["evaluations"] += 1
+                out["nontrivial"] += 1
+                try:
+                    data = archive.create_backup_archive([cr("app", 1)], json.loads(json.dumps(sec)), "ns", "t", encryption_password="pw", generations={"app": 1})
+                    back = archive.read_backup_archive(data, encryption_password="pw")
+                except Exception as e:  # noqa: BLE001
+                    viol("backup_round_trip_raises", {**w, "exc": type(e).__name__}, f"{desc}: {type(e).__name__}: {e}")
+                    return
+                e0 = next((e for e in back.entries if e.name == "app"), None)
+                if e0 is None or e0.secret != sec["app"]:
+                    viol("secret_differs", {**w, "kind": "values"}, f"{desc}: restored secret {getattr(e0, 'secret', None)}")
+
+            for b in range(256):
+                owned.salt0, owned.counter = b, 1
+                one(f"encrypted blob whose first byte (salt[0]) is 0x{b:02x}", {"encrypted": True, "deployments": 1, "blob_edge": "first_byte"})
+            owned.salt0 = 0x5A
+            import tarfile as _tar
+            import io as _io
+
+            c = 0
+            while len(last_seen) < 256 and c < 6000:
+                c += 1
+                owned.counter = c
+                blob = encryption.encrypt(b"K: v\n", "pw")
+                if blob[-1] in last_seen:
+                    continue
+                last_seen.add(blob[-1])
+                # the same nonce / salt give the same blob end only for the same plaintext: run the archive round trip with this
+                # counter and check which last byte its secret member really has
+                data = archive.create_backup_archive([cr("app", 1)], json.loads(json.dumps(sec)), "ns", "t", encryption_password="pw", generations={"app": 1})
+                with _tar.open(fileobj=_io.BytesIO(data), mode="r:gz") as tf:
+                    ends = [tf.extractfile(m).read()[-1] for m in tf.getmembers() if m.name.endswith(".secret.enc")]
+                owned.counter = c
+                one(f"encrypted blob whose last byte (end of the GCM tag) is 0x{ends[0]:02x}" if ends else "encrypted blob", {"encrypted": True, "deployments": 1, "blob_edge": "last_byte"})
+            out["blob_first_bytes_covered"] = 256
+            out["blob_last_bytes_tried"] = c
+        finally:
+            encryption.os = real_os  # type: ignore[assignment]
         # a few cases at the real KDF cost
         encryption.PBKDF2_ITERATIONS = real_iters
         for pw in ("correct horse", "pä☃ßword"):
